@@ -9,7 +9,7 @@ import alg
 import lin
 from alg import Expr, ZERO, ONE, as_expr
 from front import AnalysisError, dotted_name
-from interp import Interp, Opaque, Tup, PyList, Unknown, Arr, SymArr, explore, FuncRef, RangeV
+from interp import Interp, Opaque, Tup, PyList, Unknown, Arr, SymArr, explore, FuncRef, RangeV, SetV
 from report import Result, Ob, eq_ob, req_ob
 import config_model as CM
 
@@ -321,6 +321,9 @@ def _install_rawdict_methods():
                 if present is None or args[0] in present:
                     return alg.sym("raw.%s.%s" % (b.attrs["__rawdict__"], args[0]))
                 return args[1] if len(args) > 1 else kwargs.get("default")
+            if name == "get" and args and isinstance(args[0], (Tup, SetV)) and getattr(args[0], "kind", "set") in ("list", "dict", "set"):
+                import interp as _I
+                raise _I.raise_exc("TypeError", node, "unhashable key %r" % (args[0],))
             if name == "get" and args and (isinstance(args[0], bool) or args[0] is None or (isinstance(args[0], Expr) and args[0].as_const() is not None)):
                 # the sections of a configuration file are keyed by names: a key that is not a string is never present
                 return args[1] if len(args) > 1 else kwargs.get("default")
